@@ -293,6 +293,7 @@ pub fn get(id: &str, thorough: bool) -> Option<PropDef> {
         }
         "C08" => {
             let mut p = Profile::base("C08");
+            p.p_kill_self = (1, 16);
             p.runs = (1, 4);
             p.run_sleep = 10;
             p.w_run_out = [5, 3, 1, 0];
@@ -375,6 +376,7 @@ pub fn get(id: &str, thorough: bool) -> Option<PropDef> {
         }
         "C10" => {
             let mut p = Profile::base("C10");
+            p.p_late = (1, 4);
             p.w_how = [1, 8, 1, 10, 0];
             p.timeouts = vec![0, 1, 2, 3, 4, 5, 6, 7, 8, 10, 12, 16, 20, 30, 40, 1_000_000];
             p.caps = vec![1, 1, 2, 3, 8, 32];
